@@ -74,7 +74,11 @@ def gen_plan(rng, tier, index=0):
             continue
         pi = r.randrange(len(profs))
         N = profs[pi]["N"]
-        if x < 0.45:
+        if x < 0.40:
+            # a call that is refused with an exception (float R, L >= N, L = 0): error paths must not leave anything behind
+            steps.append({"op": "bad_call", "prof": pi, "how": r.choice(["float_R", "L_ge_N", "L_zero", "eq_L_zero"])})
+            continue
+        if x < 0.47:
             # the caller refills the SAME array objects with another profile (a loop over a preallocated buffer)
             steps.append({"op": "refill", "prof": pi, "fill": r.randrange(10 ** 6), "which": r.choice(["p", "p", "hp"])})
             continue
@@ -391,6 +395,23 @@ def _execute(plan, keep_log=False):
         h, p, w = profs[pi]
         sp = plan["profiles"][pi]
         N = len(p)
+        if st["op"] == "bad_call":
+            try:
+                with numpy.errstate(all="ignore"):
+                    if st["how"] == "float_R":
+                        pc.optimal_grouping(1.5, max(1, N // 2), h, p)
+                    elif st["how"] == "L_ge_N":
+                        pc.optimal_grouping(2, N + 3, h, p)
+                    elif st["how"] == "L_zero":
+                        pc.optimal_grouping(1, 0, h, p)
+                    else:
+                        pc.equivalent_layers(h, p, 0)
+                log.add(si, "bad_call", st["how"], "returned")
+            except BaseException as e:
+                log.add(si, "bad_call", st["how"], type(e).__name__)
+            res.count("fault.call_that_raises")
+            hist.append("bad")
+            continue
         if st["op"] == "refill":
             h2, p2, w2 = build_profile(dict(sp, fill=st["fill"], readonly=False))
             for a in (p, h):
